@@ -3,7 +3,7 @@
    key's type — which holds for every record the library hands out (valid_pairs_ok, from C05).
    Port statements hold for ALL p by arithmetic (not by enumerating 65536 values). *)
 Require Import Enr.Bytes Enr.Consts Enr.Rlp Enr.SortedMap Enr.Keccak Enr.Record Enr.Update Enr.Spec Enr.Toy.
-Require Import EnrProofs.Thm_Valid EnrProofs.Thm_Refine EnrProofs.Thm_Access.
+Require Import EnrProofs.Thm_Valid EnrProofs.Thm_Refine EnrProofs.Thm_Access EnrProofs.Thm_ReadBack.
 Open Scope N_scope.
 
 Theorem valid_pairs_ok : forall (c : crypto) kt r, Valid c kt r -> Forall pair_ok (content r).
@@ -132,3 +132,23 @@ Example toy_accessors :
   | _ => False
   end.
 Proof. vm_compute. repeat split. Qed.
+
+(* the generic typed insert stores the canonical encoding, and get_decodable of the same type reads the value back *)
+Theorem insert_stores_canonical : forall (c : crypto) kt r key v k sg x r',
+  seq r < 2 ^ 64 -> key <> pub_key_name k ->
+  step c kt r (OInsert key v) k sg = (Ok x, r') ->
+  get_raw r' key = Some (enc_tval v) /\ x = RRaw (get_raw r key).
+Proof. exact Thm_ReadBack.insert_stores_canonical. Qed.
+Print Assumptions insert_stores_canonical.
+
+Theorem insert_reads_back : forall (c : crypto) kt r key v k sg x r',
+  seq r < 2 ^ 64 -> key <> pub_key_name k -> tval_ok v ->
+  step c kt r (OInsert key v) k sg = (Ok x, r') ->
+  match v with
+  | TBytes b | TStr b | TIp4 b | TIp6 b => get_bytes r' key = Some (Ok b)
+  | TU16 n => get_uint 2 r' key = Some (Ok n)
+  | TU64 n => get_uint 8 r' key = Some (Ok n)
+  | TList l => get_strings r' key = Some (Ok l)
+  end.
+Proof. exact Thm_ReadBack.insert_reads_back. Qed.
+Print Assumptions insert_reads_back.
